@@ -101,6 +101,13 @@ func dnShape(cn string, shape int) []byte {
 			r = "Ü"
 		}
 		seq = pkix.RDNSequence{one(oidO, "Sim"), one(oidCN, cn[:len(cn)-1]+r)}
+	case 7: // names whose string form ENDS in digits, one a digit-prefix of the other ("...O=Sim 2" / "...O=Sim 24"): a
+		// store key that glues name and decimal serial together without a separator confuses (B, s) with (A, "4"+s)
+		r := map[byte]string{'A': "2", 'B': "24"}[cn[len(cn)-1]]
+		if r == "" {
+			r = "3"
+		}
+		seq = pkix.RDNSequence{one(oidO, "Sim "+r), one(oidCN, cn[:len(cn)-2])}
 	default:
 		return nil
 	}
